@@ -243,6 +243,9 @@ def Info.frameSize (i : Info) : Nat :=
 /-- `Codec.decodeFrame` (info non-nil); allocation failure is not modelled here (see C09 model) -/
 def decodeFrame (i : Info) (data : List Byte) : Outcome (Array Byte) :=
   if data.length = 0 then .err
+  -- repo commit 9650374: the plane count implied by the FrameInfo is validated before the frame
+  -- buffer is allocated (BitsAllocated = 0 wraps to 8192 bytes per sample in uint16 arithmetic)
+  else if i.bitsAllocated = 0 ∨ i.numberOfSegments < 1 ∨ i.numberOfSegments > 15 then .err
   else
     match parseHeader data with
     | none => .err
